@@ -235,7 +235,7 @@ fn minimise_cmd(args: &[String]) -> i32 {
         index: f["run_index"].as_u64().unwrap_or(0),
         event_log_digest: f["event_log_digest"].as_u64().unwrap_or(0),
     };
-    let budget: f64 = arg_val(args, "--budget").and_then(|s| s.parse().ok()).unwrap_or(20.0);
+    let budget: f64 = arg_val(args, "--budget").and_then(|s| s.parse().ok()).unwrap_or(45.0);
     let m = minimise(prop.as_ref(), &ctx, &v, budget);
     f["spec"] = m.spec.clone();
     f["violation"] = json!({"class": m.class, "detail": m.detail});
